@@ -243,6 +243,13 @@ def split_sessions(digest):
     return out
 
 
+def norm_name(dotted):
+    """question names are compared as dotted text with empty labels dropped: the server keeps names as
+    dotted strings, so a query whose label contains a '.' byte (or ends in one) comes back with other
+    label boundaries -- the same query as far as this property is concerned (counted in the coverage)"""
+    return b'.'.join(x for x in dotted.split(b'.') if x)
+
+
 class Verdict(Exception):
     def __init__(self, key, what, event_index):
         Exception.__init__(self, what)
@@ -278,7 +285,9 @@ def monitor(case, out, st):
                 else:
                     q = None
             if q:
-                inst = (key,) + q
+                if norm_name(q[1]) != q[1]:
+                    st['recv_names_with_inner_dots'] += 1
+                inst = (key, q[0], norm_name(q[1]), q[2])
                 pending[inst] += 1
                 recv_event.setdefault(inst, []).append(k)
         elif kind == 'X' and dg[:3] == RAW_HDR:
@@ -319,7 +328,7 @@ def monitor(case, out, st):
                     st['forwarded'] += 1
                     continue
                 raise Verdict('answer:query-sent', 'event %d: the server sent a query to %s' % (k, to), k)
-            inst = (to, a['id'], wirelib.dotted(a['qname']), a['qtype'])
+            inst = (to, a['id'], norm_name(wirelib.dotted(a['qname'])), a['qtype'])
             answered_ids.add(a['id'])
             if pending[inst] <= 0:
                 seen = recv_event.get(inst)
@@ -455,9 +464,9 @@ def check(rep):
     quick = rep.tier == 'quick'
     corpus = load_corpus()
     # batches keep the full-hex outputs in memory bounded
-    nbatch, n_tgt, n_gen, nev = (1, 450, 250, 120) if quick else (24, 600, 250, 200)
+    nbatch, n_tgt, n_gen, nev = (1, 450, 250, 120) if quick else (12, 600, 250, 200)
     # the extracted model needs ~4 ms per event: the model/implementation diff takes the corpus, every
-    # second targeted and every third generic history (thorough: every 4th / 6th of 20 000)
+    # second targeted and every third generic history (thorough: every 4th / 6th of 10 000)
     m_tgt, m_gen = (2, 3) if quick else (4, 6)
     rep.cov['rule'] = ('corpus first (corpus/C14, corpus/SRV); targeted histories (C14Gen: lazy / immediate / mixed sessions, '
                        'duplicates of held queries with new ids, other source ports/addresses, same id, changed case, other type; '
